@@ -78,7 +78,7 @@ def main():
             r0 = sh(f"/venv/bin/python {d / 'demo.py'}", cwd=wt, env=env, timeout=1800)
             out["demo_clean_exit"] = r0.returncode
             patch = (d / "patch.diff").read_text()
-            dirs = test_dirs(patch)
+            dirs = meta.get("tests") or test_dirs(patch)
             xml = f"/tmp/mutv/{sid}-junit.xml"
             clean_res, clean_sum = run_tests(wt, env, dirs, xml)
             ra = sh(f"git -C {wt} apply {d / 'patch.diff'}")
